@@ -104,14 +104,15 @@ impl Check for C13 {
             2 => ops.push((400 * 86_400 * 1_000_000_000, 0)),
             _ => {}
         }
-        // very many addresses at once (a scan): the table is big when the keys of interest come back
-        if rng.chance(1, 1500) {
-            for _ in 0..rng.range(66_000, 70_000) {
-                oneshot += 1;
-                ops.push((if rng.chance(1, 50) { d / 1000 } else { 0 }, oneshot));
+        // very many addresses at once (a scan) somewhere in the history: the table is big while the keys of interest come back
+        let scan_at = if rng.chance(1, 1000) { Some(rng.below(n)) } else { None };
+        for opi in 0..n {
+            if scan_at == Some(opi) {
+                for _ in 0..rng.range(66_000, 70_000) {
+                    oneshot += 1;
+                    ops.push((if rng.chance(1, 200) { d / 500 } else { 0 }, oneshot));
+                }
             }
-        }
-        for _ in 0..n {
             let dt = match style {
                 0 => 0,
                 _ => match rng.below(12) {
